@@ -98,7 +98,7 @@ reg(PropertySpec(
 
 reg(PropertySpec(
     "C16", "Slicing, concatenating, pickling and dict-converting samples keep rows aligned",
-    functions=["samples:BaseSamples.__getitem__", "samples:Samples.__getitem__", "samples:SMCSamples.__getitem__", "samples:BaseSamples.concatenate"],
+    functions=["samples:BaseSamples.__getitem__", "samples:Samples.__getitem__", "samples:SMCSamples.__getitem__", "samples:BaseSamples.concatenate", "samples:BaseSamples.from_dict"],
     native=_lazy("checks.native_misc", "native_C16"),
     technique="contract-based deductive verification: symbolic execution of the real __getitem__ (3 classes x 4 optional-field subsets, abstract selection idx) and concatenate against take/concat contracts, evidence-carried on the final state, frame of the source (z3); pickle / dict round trips by the bounded native stand-in",
     assumptions=["every kind of index (int array, mask, slice) is a selection take(., idx) with one index map per idx (assumed contract of array indexing)",
@@ -203,4 +203,15 @@ reg(PropertySpec(
     technique="contract-based deductive verification over a token model (namespaces {numpy, torch, jax}, dtype families and widths, every dtype spelling): the real resolve_dtype, convert_dtype, __post_init__, asarray, to_namespace, to_numpy, from_samples are executed symbolically for every ordered pair and spelling (exhaustive finite shape enumeration, values symbolic) with the obligation that every dtype handed to xp.asarray belongs to xp; dtype carried through every sampler-internal construction (z3); exhaustive native grid",
     assumptions=["assumed contracts of the array libraries: xp.dtype(name), getattr(torch, name), asarray value preservation and its dtype-family requirement, DLPack jax->torch", "jax float64 requires the x64 switch (library configuration, excluded)"],
     miss=["library conversion behaviour beyond the assumed contracts (probed natively)"],
+))
+
+reg(PropertySpec(
+    "C13", "Saved samples, histories, transforms, flows and configuration reload unchanged",
+    functions=["utils:recursively_save_to_h5_file", "utils:resolve_xp", "samples:BaseSamples.from_dict", "utils:resolve_dtype", "utils:convert_dtype"],
+    native=_lazy("checks.native_misc", "native_C13"),
+    extra_static=_lazy1("checks.static_facts", "c13_bindings"),
+    technique="contract-based deductive verification: the real recursively_save_to_h5_file / encode_for_hdf5 and load_from_h5_file / decode_from_hdf5 are executed symbolically against an h5py group model (alphabetical iteration, string storage) for dictionary shapes covering None, {}, nested dicts to depth 3, string lists, scalars, arrays; the real to_dict -> from_dict for three classes x layouts incl. the alphabetical re-ordering an HDF5 load performs (columns tracked individually); resolve_xp on every saved namespace name; constructor binding of the saved configuration from the ast (z3 + ast); bounded native save/load grid on real HDF5 files",
+    assumptions=["assumed h5py storage model (strings come back as bytes, lists of strings as object arrays, 0-d values as scalars, alphabetical member order)", "preconditions: no key contains '.', no string value equals a sentinel",
+                 "the dictionary shapes are enumerated to nesting depth 3 (the induction over depth is not mechanised)"],
+    miss=["network weights and transform statistics are checked by the bounded stand-in only", "History.save/load and BaseTransform.save/load are covered by the bounded stand-in only"],
 ))
